@@ -86,8 +86,8 @@ static void c_sw_ok_big(Res *res) { prep(); int r = swprintf_p(wd, 600, BOSU, L"
 static void c_vsw_ok_big(Res *res) { prep(); int r = vsw(wd, 600, L"%d|%ls|%s", 5, L"wide", "narrow"); WRES(r); }
 /* operands whose case folding triples in length, bounds of length + 1 */
 static const wchar_t exp2[] = { 0x390, 0x390, 0 }, exp2b[] = { 0x3b0, 0x390, 0 }, exp10[] = { 0x390, 0x390, 0x390, 0x390, 0x390, 0x390, 0x390, 0x390, 0x390, 0x390, 0 };
-static void c_natcmp_exp(Res *res) { int d = 99; int r = wcsnatcmp_p(exp2, 3, exp2b, 3, 1, &d, BOSU, BOSU); res->rc = r; res->failind = r != 0; res->has_dest = 0; res->dest_cleared = 1; }
-static void c_natcmp_exp_src(Res *res) { int d = 99; int r = wcsnatcmp_p(L"ab", 3, exp2, 3, 1, &d, BOSU, BOSU); res->rc = r; res->failind = r != 0; res->has_dest = 0; res->dest_cleared = 1; }
+static void c_natcmp_exp(Res *res) { int d = 99; int r = wcsnatcmp_p(exp10, 11, exp2b, 3, 1, &d, BOSU, BOSU); res->rc = r; res->failind = r != 0; res->has_dest = 0; res->dest_cleared = 1; }
+static void c_natcmp_exp_src(Res *res) { int d = 99; int r = wcsnatcmp_p(L"ab", 3, exp10, 11, 1, &d, BOSU, BOSU); res->rc = r; res->failind = r != 0; res->has_dest = 0; res->dest_cleared = 1; }
 static void c_icmp_exp(Res *res) { int d = 99; int r = wcsicmp_p(exp10, 11, exp10, 11, &d, BOSU, BOSU); res->rc = r; res->failind = r != 0; res->has_dest = 0; res->dest_cleared = 1; }
 
 static struct { const char *name; void (*fn)(Res *); } cases[] = {
